@@ -40,6 +40,22 @@ Coverage axes (drivers 5 and 6 add the last four):
 * every sealing API (seal, sym_seal) at every node of every tree.
 The source of an accessor restriction (per-object flag vs. scope) is part of
 the case id (`|accessor-off[flag]` / `|accessor-off[scope]`).
+
+Persistence of protection (only seal(False) / set_accessor_writable(True) /
+the scopes lift a protection, so a protected value stays protected whatever
+permitted operation ran in between):
+* every operation of every driver that modified the tree must leave the
+  protection flags of all surviving nodes (same identity) as they were
+  (`<op>|changes-<flag>-of-surviving-node`);
+* driver 7: order of operations -- a permitted operation (rebind / method /
+  operator / helper while only accessors are off, anything inside
+  as_sealed(False), read-only APIs) and then every accessor form / mutator on
+  the nodes whose protection is known from the driver's own bookkeeping
+  (constructor keywords accessor_writable=False / sealed=True, typed and
+  schema-less containers, set_accessor_writable, seal), never read back
+  from the flag (`after[<op>]@<where>/<probe class>|<mode>`);
+* driver 8: a protected value that becomes a member of a new parent
+  (`compose/<constructor or mutator family>|...-member-stays-protected`).
 """
 import threading
 import traceback
@@ -1688,9 +1704,11 @@ PERSIST_EXTRA_TREES = {
     'ctor-sealed-spec': (
         "pg.Dict(n=3, l=[3, 1, 2], s=dict(u=1, w=2), extra=5, "
         "value_spec=C08SPEC, sealed=True)", 'spec'),
+    # (the object is the root: a sealed value that is handed to the
+    # constructor of a parent is the business of driver 8)
     'ctor-sealed-obj': (
-        "pg.Dict(h=C08A(x=1, d=pg.Dict(p=1), l=pg.List([3, 1]), "
-        "sealed=True), t=5)", 'cls'),
+        "C08A(x=1, d=pg.Dict(p=1, q=C08N(x=2)), l=pg.List([3, 1]), "
+        "sealed=True)", 'cls'),
 }
 TREES.update(PERSIST_EXTRA_TREES)
 for _k, _v in PERSIST_EXTRA_TREES.items():
@@ -1707,7 +1725,7 @@ PERSIST_BASES = (
      ('ctor-off-spec', (), (), ('',), ()),
      ('ctor-sealed', (), (), (), ('',)),
      ('ctor-sealed-spec', (), (), (), ('',)),
-     ('ctor-sealed-obj', (), (), (), ('h',))])
+     ('ctor-sealed-obj', (), (), (), ('',))])
 
 READONLY_OPS = [
     ('clone/deep', 'rebind', 'n.clone(deep=True)'),
@@ -1924,9 +1942,165 @@ def drv_protection_persists(tier, seed):
   return rec.result()
 
 
+# --------------------------------------------------------------------------
+# Driver 8: a protected value that becomes a member of a new parent (through a
+# constructor or a mutator of the parent) stays protected: only seal(False) /
+# set_accessor_writable(True) / the scopes lift a protection.
+# --------------------------------------------------------------------------
+
+COMPOSE_PRE = PRE['cls'] + """@pg.functor()
+def c08fn(x=1, d=None, l=None):
+  return x
+"""
+COMPOSE_VALUES = [
+    # (label, kind, source, sealed?, accessors off?)
+    ('dict', 'dict', 'pg.Dict(p=1, q=pg.List([1]))'),
+    ('list', 'list', 'pg.List([1, pg.Dict(p=1)])'),
+    ('object', 'object', 'C08A(x=1, d=pg.Dict(p=1))'),
+    ('functor', 'object', 'c08fn(x=2, d=pg.Dict(p=1))'),
+]
+COMPOSE_PROTECT = [
+    # (label, template, sealed, accessors off)
+    ('seal()', '{v}.seal()', True, False),
+    ('ctor-sealed=True', '{v_}, sealed=True)', True, False),
+    ('set_accessor_writable(False)', '{v}.set_accessor_writable(False)',
+     False, True),
+    ('ctor-accessor_writable=False', '{v_}, accessor_writable=False)', False,
+     True),
+    ('descendant-sealed', None, True, False),
+]
+COMPOSE_FORMS = [
+    ('dict-ctor/kwarg', 'c = pg.Dict(k=v)'),
+    ('dict-ctor/mapping', "c = pg.Dict({'k': v})"),
+    ('dict-ctor/inside-plain-dict', "c = pg.Dict(k={'j': v})"),
+    ('dict-ctor/inside-plain-list', 'c = pg.Dict(k=[v])'),
+    ('dict-ctor/typed',
+     "c = pg.Dict(k=v, value_spec=pg.typing.Dict([('k', pg.typing.Any())]))"),
+    ('list-ctor', 'c = pg.List([v])'),
+    ('list-ctor/inside-plain-dict', "c = pg.List([{'j': v}])"),
+    ('list-ctor/typed',
+     'c = pg.List([v], value_spec=pg.typing.List(pg.typing.Any()))'),
+    ('object-ctor', 'c = C08A(d=v)'),
+    ('object-ctor/inside-plain-list', 'c = C08A(d=[v])'),
+    ('functor-ctor', 'c = c08fn(d=v)'),
+    ('dict-ctor/two-levels', 'c = pg.Dict(a=pg.List([C08A(d=v)]))'),
+    ('dict.setitem', "c = pg.Dict(); c['k'] = v"),
+    ('dict.setattr', 'c = pg.Dict(); c.k = v'),
+    ('dict.update', 'c = pg.Dict(); c.update(k=v)'),
+    ('dict.setdefault', "c = pg.Dict(); c.setdefault('k', v)"),
+    ('dict.ior', "c = pg.Dict(); c |= {'k': v}"),
+    ('dict.rebind', 'c = pg.Dict(); c.rebind(k=v)'),
+    ('list.append', 'c = pg.List(); c.append(v)'),
+    ('list.insert', 'c = pg.List([1]); c.insert(0, v)'),
+    ('list.extend', 'c = pg.List(); c.extend([v])'),
+    ('list.iadd', 'c = pg.List(); c += [v]'),
+    ('list.setitem', 'c = pg.List([1]); c[0] = v'),
+    ('list.rebind', 'c = pg.List([1]); c.rebind({0: v})'),
+    ('object.setattr', 'c = C08A(); c.d = v'),
+    ('object.rebind', 'c = C08A(); c.rebind(d=v)'),
+    ('functor.rebind', 'c = c08fn(); c.rebind(d=v)'),
+    ('pg.patch', "c = pg.Dict(k=1); pg.patch(c, {'k': v})"),
+]
+COMPOSE_PROBES = {
+    # kind: (accessor write, rebind)
+    'dict': ("v['zz'] = 1", 'v.rebind(zz=2)'),
+    'list': ('v[0] = 7', 'v.rebind({0: 8})'),
+    'object': ('v.x = 7', 'v.rebind(x=8)'),
+}
+COMPOSE_CHECK = """found = v is c or any(x is v for x in c.sym_descendants())
+S = lambda: pg.to_json(c)
+def outcome(src):
+  before = S()
+  try:
+    exec(src, {'pg': pg, 'v': v})
+  except Exception as e:
+    return type(e).__name__, S() == before
+  return None, S() == before
+"""
+
+
+def drv_composition(tier, seed):
+  del tier, seed
+  rec = Recorder(
+      'C08', 'a sealed / accessor-protected value that becomes a member of a '
+      'new parent keeps its protection (flags of the value and of its '
+      'descendants; mutators still refused; rebind still works when only the '
+      'accessors are off)',
+      scope='values: Dict / List / Object / functor with a symbolic '
+      'descendant x protection {seal(), ctor sealed=True, '
+      'set_accessor_writable(False), ctor accessor_writable=False, only the '
+      'descendant sealed} x 28 ways of becoming a member (constructors of '
+      'Dict / List / Object / functor, also typed, nested in plain dict/list, '
+      'two levels; every inserting mutator of Dict / List / Object; pg.patch); '
+      'checked only when the parent holds the very same object')
+  ns = {}
+  exec(compile(COMPOSE_PRE, '<c08-compose>', 'exec'), ns)  # pylint: disable=exec-used
+  for vlabel, kind, vsrc in COMPOSE_VALUES:
+    for plabel, templ, sealed, acc_off in COMPOSE_PROTECT:
+      if templ is None:
+        # only the symbolic descendant of the value is sealed
+        desc = {'dict': "v['q']", 'list': 'v[1]', 'object': 'v.d'}[kind]
+        vdef = f'v = {vsrc}; t = {desc}; t.seal()'
+      else:
+        if 'ctor' in plabel and vlabel == 'functor' and 'accessor' in plabel:
+          continue  # functors take no accessor_writable keyword
+        if 'ctor-accessor' in plabel and kind == 'object':
+          continue  # objects take no accessor_writable keyword
+        vdef = 'v = ' + templ.format(v=vsrc, v_=vsrc[:-1]) + '; t = v'
+      for flabel, fsrc in COMPOSE_FORMS:
+        head = f'{COMPOSE_PRE.strip()}\n{vdef}\n{fsrc}\n{COMPOSE_CHECK}'
+        env = dict(ns)
+        try:
+          exec(f'{vdef}\n{fsrc}\n{COMPOSE_CHECK}', env)  # pylint: disable=exec-used
+        except Exception as e:  # pylint: disable=broad-except
+          # The composition itself is refused / impossible: nothing to check.
+          rec.case(f'compose/{flabel}|not-applicable', (vlabel, plabel), True,
+                   f'{type(e).__name__}', '', nontrivial=False)
+          continue
+        if not env['found']:
+          # The parent stored a copy: the statement is silent about copies.
+          rec.case(f'compose/{flabel}|stored-a-copy', (vlabel, plabel), True,
+                   '', '', nontrivial=False)
+          continue
+        t = env['v'] = env['t']
+        head += 'assert found\nv = t\n'
+        key = (vlabel, plabel, flabel)
+        # One id per constructor / mutator family and kind of protection.
+        cid = (f"compose/{flabel.split('/')[0]}|"
+               f"{'sealed' if sealed else 'accessor-off'}-member-stays-protected")
+        tk = kind_of(t)
+        acc, reb = COMPOSE_PROBES[tk]
+        if sealed:
+          below = [t] + [x for x in t.sym_descendants()
+                         if isinstance(x, pg.Symbolic)]
+          rec.case(cid, key + ('is_sealed',), all(x.is_sealed for x in below),
+                   f'{vdef}; {fsrc}: is_sealed '
+                   f'{[(str(x.sym_path), x.is_sealed) for x in below]}',
+                   head + 'assert all(x.is_sealed for x in [v] + '
+                   '[x for x in v.sym_descendants() '
+                   'if isinstance(x, pg.Symbolic)])')
+          checks = [(acc, ('WritePermissionError', True)),
+                    (reb, ('WritePermissionError', True))]
+        else:
+          rec.case(cid, key + ('accessor_writable',),
+                   t.accessor_writable is False,
+                   f'{vdef}; {fsrc}: accessor_writable={t.accessor_writable}',
+                   head + 'assert v.accessor_writable is False')
+          checks = [(acc, ('WritePermissionError', True)), (reb, (None, False))]
+        for probe, want in checks:
+          got = env['outcome'](probe)
+          rec.case(cid, key + (probe,), got == want,
+                   f'{vdef}; {fsrc}; then {probe}: (error, tree unchanged)='
+                   f'{got}, want {want}',
+                   head + f'got = outcome({probe!r})\n'
+                   f'assert got == {want!r}, got')
+  return rec.result()
+
+
 DRIVERS = [drv_sealed_flag, drv_sealed_scopes, drv_accessor,
            drv_seal_histories, drv_symbolic_kinds,
-           drv_helpers_and_seal_apis, drv_protection_persists]
+           drv_helpers_and_seal_apis, drv_protection_persists,
+           drv_composition]
 
 
 def replay(rec):
